@@ -62,8 +62,11 @@ TraceDef ==
 
 \* C03 (second sentence), C07 (alignment of the record types), C14 on the compiled types
 TypeTags ==
-  LET ts == e.types
+  LET all == e.types
+      ts == SelectSeq(all, LAMBDA t : t.v # 0)      \* the record types; v = 0 is RecordUninitialized
       n == Len(ts) IN
+  If(\E i, j \in DOMAIN all : all[i].size # all[j].size \/ all[i].align # all[j].align,
+     "C03:generated-record-types-differ-in-size-or-alignment-from-RecordUninitialized-or-each-other") \cup
   If(\E i, j \in 1..n : ts[i].size # ts[j].size, "C03:generated-record-types-differ-in-size")
   \cup If(\E i, j \in 1..n : ts[i].align # ts[j].align, "C03:generated-record-types-differ-in-alignment")
   \cup If(\E i \in 1..n : \E f \in Range(FieldsOf(def, i)) : ts[i].align % f.align # 0,
@@ -102,14 +105,14 @@ TraceBegin ==
 CurSlot == IF op # <<>> /\ op.slot \in {1, 2} THEN slots[op.slot] ELSE <<>>
 OtherSlot == IF op # <<>> /\ op.slot \in {1, 2} THEN slots[3 - op.slot] ELSE <<>>
 SerialsOf(rec) == IF rec = <<>> THEN {} ELSE {rec.vals[f].serial : f \in DOMAIN rec.vals} \ {0}
-IsConvert == op # <<>> /\ op.op \in {"convert_full_simple", "convert_uninit_simple", "convert_full_out", "convert_uninit_out"}
+IsConvert == op # <<>> /\ op.op \in {"convert_full_simple", "convert_uninit_simple", "convert_full_out", "convert_uninit_out", "convert_vec"}
 IsOutForm == op # <<>> /\ op.op \in {"convert_full_out", "convert_uninit_out"}
 \* record-owned values the operation in progress may destroy
 MayDie ==
   IF op = <<>> THEN {}
   ELSE CASE op.op = "drop" -> SerialsOf(CurSlot)
          [] op.op = "set" -> IF CurSlot # <<>> /\ op.f \in DOMAIN CurSlot.vals THEN {CurSlot.vals[op.f].serial} \ {0} ELSE {}
-         [] op.op \in {"convert_full_simple", "convert_uninit_simple"} ->
+         [] op.op \in {"convert_full_simple", "convert_uninit_simple", "convert_vec"} ->
               {CurSlot.vals[f].serial : f \in (DOMAIN CurSlot.vals) \cap MinusOf(def, CurSlot.v + 1)} \ {0}
          [] op.op = "clone_from" -> SerialsOf(OtherSlot)
          [] OTHER -> {}
@@ -309,7 +312,7 @@ EndConvert ==
   IF rec = <<>> \/ rec.v + 1 \notin DOMAIN def.variants THEN
      /\ UNCHANGED <<slots, st, ext, lastmut>> /\ dead' = TRUE /\ Consume({"H:convert-without-next-variant"})
   ELSE LET v == rec.v
-           full == op.op \in {"convert_full_simple", "convert_full_out"}
+           full == op.op \in {"convert_full_simple", "convert_full_out", "convert_vec"}
            F == IF full THEN PlusOf(def, v + 1) ELSE MandatoryPlus(def, v + 1) IN
   IF ~MadeMatches(v + 1, F) THEN
      /\ UNCHANGED <<slots, st, ext, lastmut>> /\ dead' = TRUE /\ Consume({"H:values-made-do-not-match-the-added-fields"})
@@ -429,6 +432,12 @@ TraceFin ==
   /\ Consume(If(\E x \in DOMAIN st : st[x] # "dead", "C06:value-never-destroyed")
         \cup If(zlive # 0, "C06:zero-size-value-never-destroyed"))
 
+\* hook events of the in-place vector conversion (operation convert_vec): not this machine's
+TraceIgnore ==
+  /\ ~dead /\ e.ev = "vc" /\ Rest
+  /\ UNCHANGED <<dead, slots, st, pay, zlive, op, made, outv, failed, ext, tmp, lastmut, enc, cap>>
+  /\ Consume({})
+
 \* the driver process was killed (a signal, or a non-unwinding panic): the script ends here
 TraceAbort ==
   /\ ~dead /\ e.ev = "abort" /\ Rest
@@ -439,7 +448,7 @@ TraceAbort ==
 TraceNext ==
   /\ l <= Len(Rec)
   /\ \/ TraceDef \/ TraceScript \/ TraceSkip \/ TraceBegin \/ TraceMake \/ TraceClone \/ TraceDestroy
-     \/ TraceOut \/ TraceFail \/ TracePrim \/ TraceEnd \/ TraceFin \/ TraceAbort
+     \/ TraceOut \/ TraceFail \/ TracePrim \/ TraceEnd \/ TraceFin \/ TraceAbort \/ TraceIgnore
 
 TraceSpec == TraceInit /\ [][TraceNext]_tvars
 
